@@ -48,7 +48,7 @@ PROPS = {
     "C03": {
         "module": "GtfsVerif.Props.C03",
         "trusted_base": ST_TB,
-        "partial": ["the model's cycle check walks with fuel (number of stops + 1) where Go's loop has none; on the forest invariant they coincide, which is validated differentially (feeds with up to 2100 stops), not proved"],
+        "partial": [],
         "assumptions": [],
     },
     "C05": {
@@ -177,7 +177,7 @@ MANIFEST_TEXT = {
         "technique": "Lean 4 proof (CSV presentation round trip, per-row transcription) over regenerated schema facts + generator-truth correspondence",
     },
     "C03": {
-        "text": "Theorems for any member bytes: every reference index is in range of its target collection and the target carries the id named in the referring row (route->agency, transfer->stops, trip->route/service/shape, stop time->stop/trip); the parent links produced by the linking pass form a forest for any ids and parent_station values (invariant over the pass: chains end, unprocessed stops are roots; adding a link whose target's chain avoids the stop keeps it). The canonicaliser locates every pointer by identity in the result's own collections; the oracle walks every chain under a step budget on adversarial feeds.",
+        "text": "Theorems for any member bytes: every reference index is in range of its target collection and the target carries the id named in the referring row (route->agency, transfer->stops, trip->route/service/shape, stop time->stop/trip); the parent links produced by the linking pass form a forest for any ids and parent_station values (invariant over the pass: chains end, unprocessed stops are roots; adding a link whose target's chain avoids the stop keeps it); the fuel of the model's cycle check is never exhausted (on a forest every chain ends within length+1 steps, by pigeonhole), so any larger fuel - Go's unbounded loop - gives the same links. The canonicaliser locates every pointer by identity in the result's own collections; the oracle walks every chain under a step budget on adversarial feeds.",
         "note": "Trusted: Lean kernel, harness. Pointer identity is observed, not proved.",
         "technique": "Lean 4 proof (index specs, forest invariant by induction over the linking pass) + pointer-identity correspondence",
     },
